@@ -53,6 +53,10 @@ def replace_all(self, ex, s, a, b):
 
 
 def _replace_all(self, ex, s, a, b):
+    ca = as_const(a.z)
+    if "repl1" in self.specs and isinstance(ca, str) and len(ca) == 1:
+        # s.replace(c, r) for a one-character c: the recursive spec function repl1 (defined in contracts)
+        return ex.apply_spec(self.specs["repl1"], [s, a, b]).z
     if not hasattr(self, "_repl"):
         self._repl = z3.Function("replace_all", z3.StringSort(), z3.StringSort(), z3.StringSort(), z3.StringSort())
     self.used_assumption("str.replace is an uninterpreted function replace_all (its definition is supplied by lemmas where needed)")
